@@ -127,7 +127,7 @@ impl Kind {
         )
     }
     pub fn array_lens() -> &'static [usize] {
-        &[0, 1, 2, 3, 4, 5, 6, 8, 12, 16, 24]
+        &[0, 1, 2, 3, 4, 5, 6, 8, 12, 16, 24, 33, 64]
     }
 }
 
@@ -1158,6 +1158,8 @@ macro_rules! with_array {
             12 => $body($cfg, make_arr::<12>(&$mk)),
             16 => $body($cfg, make_arr::<16>(&$mk)),
             24 => $body($cfg, make_arr::<24>(&$mk)),
+            33 => $body($cfg, make_arr::<33>(&$mk)),
+            64 => $body($cfg, make_arr::<64>(&$mk)),
             other => panic!("unsupported array length {other}"),
         }
     };
